@@ -77,6 +77,17 @@ TYPESETS = {
 PYTYPES = {"Leaf": faults.Leaf, "Leaf2": faults.Leaf2, "KeyLeaf": faults.KeyLeaf, "int": int, "float": float, "str": str}
 
 
+def eff_ts(plan):
+    """The conversions the decorator is asked to perform: ignore_result switches off yield / send / return conversion,
+    ignore_params the parameter conversion."""
+    ts = dict(TYPESETS[plan["types"]], A="Leaf")
+    if plan.get("ignore") == "result":
+        ts.update(Y=None, S=None, R=None, CR=None)
+    elif plan.get("ignore") == "params":
+        ts["A"] = None
+    return ts
+
+
 def source(plan):
     ts = TYPESETS[plan["types"]]
     late = plan.get("late_types") and plan["types"] == "leaf"
@@ -86,6 +97,8 @@ def source(plan):
         ts["async"] = ' -> "AsyncGenerator[YT, ST]"'
     eager = "True" if plan["eager"] else "False"
     opt = ", options=utype.Options(collect_errors=True)" if plan.get("collect") else ""
+    if plan.get("ignore"):
+        opt += ", ignore_%s=True" % plan["ignore"]
     ctx = plan.get("ctx", "func")
     if ctx == "static":
         tail = f"""
@@ -202,6 +215,8 @@ def generate(rng, tier):
     plan = {"prop": ID, "kind": kind, "types": types, "eager": rng.random() < 0.5,
             "collect": rng.random() < 0.2, "ctx": rng.choice(["func", "func", "func", "static", "class_deco"]),
             "late_types": rng.random() < 0.25}
+    if plan["ctx"] != "class_deco" and rng.random() < 0.15:
+        plan["ignore"] = rng.choice(["result", "params"])
     ncons = rng.choice([1, 1, 2, 3])
     pool = [1, []]
     consumers = []
@@ -214,7 +229,8 @@ def generate(rng, tier):
             if kind != "co":
                 if kind == "async" and rng.random() < 0.35:
                     body.append(["sleep", rng.choice([0, 0.5, 1, 3])])
-                body.append(["yield", _gen_value(rng, ts["Y"], pool)])
+                # (a yielded None is a value like any other: it has to conform to the declared yield type too)
+                body.append(["yield", _gen_value(rng, ts["Y"], pool) if rng.random() < 0.93 else None])
             else:
                 body.append(["sleep", rng.choice([0, 0.5, 1, 3])])
         r = rng.random()
@@ -308,7 +324,7 @@ class RefSync:
 
     def _start(self):
         try:
-            a = _conv(self.arg, "Leaf")
+            a = _conv(self.arg, self.ts.get("A", "Leaf"))
         except RefParseError:
             self.state = "dead"
             raise
@@ -373,7 +389,7 @@ class RefAsync:
 
     def _start(self):
         try:
-            a = _conv(self.arg, "Leaf")
+            a = _conv(self.arg, self.ts.get("A", "Leaf"))
         except RefParseError:
             self.state = "dead"
             raise
@@ -577,7 +593,7 @@ FAULT_OPS = {"throw", "close", "drop", "athrow", "aclose"}
 
 
 def conforms(plan, c):
-    y = TYPESETS[plan["types"]]["Y"]
+    y = eff_ts(plan)["Y"]
     if y is None:
         return True
     if y == "Leaf":
@@ -588,7 +604,7 @@ def conforms(plan, c):
 
 
 def conforms_ret(plan, c):
-    r = TYPESETS[plan["types"]].get("CR")
+    r = eff_ts(plan).get("CR")
     if r is None:
         return True
     if r == "Leaf":
@@ -607,7 +623,7 @@ def execute(plan):
         CTX[100 + ci] = {"script": c["body"], "log": []}
     mod = kernel.make_module("verif_c08_mod", source(plan))
     faults.set_plan(plan["faults"])
-    ts = TYPESETS[plan["types"]]
+    ts = eff_ts(plan)
     kind = plan["kind"]
     info = {}
     if kind == "sync":
@@ -623,14 +639,14 @@ def execute(plan):
             # ideal coroutine wrapper: parameters first (eager: at call), then the body, then the declared return conversion
             arg = val(cons[ci]["arg"])
             if plan["eager"]:
-                a = _conv(arg, "Leaf")
+                a = _conv(arg, ts["A"])
 
                 async def run():
                     return _conv(await mod.raw_co(a, 100 + ci), ts.get("CR"))
                 return run()
 
             async def run_lazy():
-                a2 = _conv(arg, "Leaf")
+                a2 = _conv(arg, ts["A"])
                 return _conv(await mod.raw_co(a2, 100 + ci), ts.get("CR"))
             return run_lazy()
         got, info = drive_async(lambda ci: mod.dec_co(val(cons[ci]["arg"]), ci), plan, 0)
@@ -705,7 +721,7 @@ def execute(plan):
                 nontriv = True
                 arg_failed = False
                 try:
-                    _conv(val(c["arg"]), "Leaf")
+                    _conv(val(c["arg"]), ts["A"])
                 except RefParseError:
                     arg_failed = True
                 if arg_failed:
@@ -726,7 +742,7 @@ def execute(plan):
             res.violate(f"C08|{tag}|body|resumed_after_parse_failure",
                         f"consumer {ci}: the body ran on after a conversion failure: {glog[failure_at:]}")
     if nontriv:
-        res.nontrivial = kernel.digest_of([plan["kind"], plan["eager"], plan["types"], plan.get("collect"), plan.get("ctx"), plan.get("late_types"), [[c["body"], c["script"]] for c in cons],
+        res.nontrivial = kernel.digest_of([plan["kind"], plan["eager"], plan["types"], plan.get("collect"), plan.get("ctx"), plan.get("late_types"), plan.get("ignore"), [[c["body"], c["script"]] for c in cons],
                                            plan.get("interleave"), plan.get("loop", {}).get("mode"), plan.get("cancel")])
     CTX.clear()
     return res
@@ -755,6 +771,10 @@ def shrink(plan):
     if plan.get("collect"):
         p = copy.deepcopy(plan)
         p["collect"] = False
+        yield p
+    if plan.get("ignore"):
+        p = copy.deepcopy(plan)
+        p.pop("ignore")
         yield p
     if plan.get("late_types"):
         p = copy.deepcopy(plan)
